@@ -181,6 +181,28 @@ def run(ctx):
     out = os.path.join(ctx.work, "traces.ndjson")
     vf.drv(ctx, ["c04", jpath, out], timeout=3000)
     traces = vf.read_ndjson(out)
+    # the schedules with concurrently handled copies once more under the race detector: two copies of a message handled at the
+    # same time must be serialized by the layer - a data race inside it is how defect D23 corrupted a body once in several
+    # hundred runs (the detector has no false positives; whether a race shows in the bytes is luck)
+    vf.build_driver(ctx, race=True)
+    seenj, rjobs = set(), []
+    for j in jobs:
+        if j["mode"] == "layerc":
+            k = json.dumps(j, sort_keys=True)
+            if k not in seenj:
+                seenj.add(k)
+                rjobs.append(j)
+    if rjobs:
+        rj = os.path.join(ctx.work, "jobs-race.ndjson")
+        vf.write_ndjson(rj, rjobs)
+        rc, so, se = vf.drv(ctx, ["c04", rj, os.path.join(ctx.work, "traces-race.ndjson")], timeout=1800, race=True, ok_codes=(0, 66), env_extra={"GORACE": "halt_on_error=0 exitcode=66"})
+        ctx.cov["concurrent_copy_schedules_under_race_detector"] = len(rjobs)
+        if rc == 66 or "DATA RACE" in se:
+            first = [l.strip() for l in se[se.find("DATA RACE"):].splitlines()[1:14] if "/repo/" in l or "go-coap" in l][:4]
+            if any("go-coap" in f or "/repo/" in f for f in first):
+                vf.report(ctx, "C04_RaceFree", {"detector": "go -race"},
+                          "the Go race detector reported a data race inside the block-wise layer while two copies of a message were handled at the same time: %s" % first,
+                          {"stderr": se[:8000], "cmd": "bin/check C04"})
     bad, gen, dist = vf.judge_records(ctx, "bw", "RecC04", "RecC04.cfg", traces, shards=8, timeout=3000)
     ctx.add("states", dist)
     ctx.add("transitions", gen)
